@@ -188,8 +188,8 @@ type Scenario struct {
 	// CleanBefore: TestMain also calls Clean before m.Run (only used when Clean may not delete)
 	CleanBefore bool `json:"clean_before,omitempty"`
 	// SetGoflags: TestMain appends this to GOFLAGS (os.Setenv) before m.Run
-	SetGoflags string `json:"set_goflags,omitempty"`
-	Roots      []string         `json:"roots"`
+	SetGoflags string   `json:"set_goflags,omitempty"`
+	Roots      []string `json:"roots"`
 }
 
 // ---------------------------------------------------------------- running
